@@ -9,7 +9,7 @@ import (
 var _ = time.Second
 
 func configs() []cfg {
-	rtmpI := []instr.PkgRules{{Pkg: "rtmp", SyncSwap: true}, {Pkg: "amf0", SyncSwap: true}}
+	rtmpI := []instr.PkgRules{{Pkg: "rtmp", SyncSwap: true, Atomics: true}, {Pkg: "amf0", SyncSwap: true, Atomics: true}}
 	wsI := []instr.PkgRules{{Pkg: "websocket", SyncSwap: true, ChanLock: []string{"mu"}, Export: "websocket/verif_export.go"}}
 	return []cfg{
 		{id: "C01", pkg: "checks/c01", level: "model_checking", workers: 16},
@@ -35,12 +35,12 @@ func configs() []cfg {
 			// the reader's own replies (pong, close echo) carry a 1 s wall-clock write deadline: the clock is frozen (R2) and timers never fire (R2b)
 			instr: []instr.PkgRules{{Pkg: "websocket", SyncSwap: true, ChanLock: []string{"mu"}, Time: true, Timers: true, Export: "websocket/verif_export.go"}}},
 		{id: "C15", pkg: "checks/c15", level: "model_checking", workers: 16, race: true,
-			instr: []instr.PkgRules{{Pkg: "websocket", SyncSwap: true, ChanLock: []string{"mu"}, Timers: true, Export: "websocket/verif_export.go"}}},
+			instr: []instr.PkgRules{{Pkg: "websocket", SyncSwap: true, ChanLock: []string{"mu"}, Timers: true, Atomics: true, Export: "websocket/verif_export.go"}}},
 		{id: "C16", pkg: "checks/c16", level: "fault_enumeration", workers: 16, thoroBud: 25 * time.Minute,
 			instr: []instr.PkgRules{{Pkg: "https/acme", Export: "acme/verif_export.go"}}},
 		{id: "C17", pkg: "checks/c17", level: "exploration", workers: 16, quickBud: 150 * time.Second, thoroBud: 40 * time.Minute},
 		{id: "C18", pkg: "checks/c18", level: "model_checking", workers: 8, race: true,
-			instr: []instr.PkgRules{{Pkg: "logger", SyncSwap: true, Globals: []string{"gCid"}}}},
+			instr: []instr.PkgRules{{Pkg: "logger", SyncSwap: true, Globals: []string{"gCid"}, Atomics: true}}},
 		{id: "C19", pkg: "checks/c19", level: "exploration", workers: 16, thoroBud: 25 * time.Minute},
 		{id: "C20", pkg: "checks/c20", level: "model_checking", workers: 16,
 			instr: []instr.PkgRules{{Pkg: "kxps", SyncSwap: false, Time: true}}},
